@@ -24,6 +24,15 @@ var Root = func() string {
 	return "/verif"
 }()
 
+// OutDir is where evidence/ and replays/ are written: Root, unless VERIF_OUT names another
+// directory (runs against a tree other than /repo, see ./check).
+var OutDir = func() string {
+	if r := os.Getenv("VERIF_OUT"); r != "" {
+		return r
+	}
+	return Root
+}()
+
 type knownFinding struct {
 	Property  string `json:"property"`
 	Signature string `json:"signature"`
@@ -194,7 +203,7 @@ func RunCheck(c *Check, tier string, seed int64) int {
 	for _, s := range ksigs {
 		fmt.Printf("KNOWN-FINDING: property=%s %s %s\n", c.ID, s, known[s].What)
 	}
-	repDir := filepath.Join(Root, "replays", c.ID)
+	repDir := filepath.Join(OutDir, "replays", c.ID)
 	exit := 0
 	var newList []string
 	for _, s := range order {
@@ -250,8 +259,8 @@ func RunCheck(c *Check, tier string, seed int64) int {
 		"assumptions": c.Assumptions, "wall_s": time.Since(start).Seconds(), "violations": len(order),
 	}
 	b, _ := json.MarshalIndent(ev, "", " ")
-	os.MkdirAll(filepath.Join(Root, "evidence"), 0o755)
-	if err := os.WriteFile(filepath.Join(Root, "evidence", c.ID+".json"), b, 0o644); err != nil {
+	os.MkdirAll(filepath.Join(OutDir, "evidence"), 0o755)
+	if err := os.WriteFile(filepath.Join(OutDir, "evidence", c.ID+".json"), b, 0o644); err != nil {
 		fmt.Fprintln(os.Stderr, "cannot write evidence:", err)
 		return 2
 	}
